@@ -1,8 +1,14 @@
 #!/bin/sh
-# tools/mutant.sh <patch.diff> <check args...>: apply a seeded change to /repo, run a check, undo it.
+# tools/mutant.sh <patch.diff> <check args...>: run a check against a seeded change.
+# The change is applied in a scratch worktree of /repo (removed afterwards), so /repo itself is never
+# touched and other checks can run meanwhile.
 P="$1"; shift
-git -C /repo apply "$P" || { echo "PATCH DOES NOT APPLY: $P"; exit 3; }
-/verif/check "$@" 2>&1 | grep -v "^simport\|^build" | cut -c1-500
+W=$(mktemp -d /tmp/mutwork-XXXXXX)
+rmdir "$W"
+git -C /repo worktree add -q --detach "$W" HEAD || exit 3
+git -C "$W" apply "$P" || { echo "PATCH DOES NOT APPLY: $P"; git -C /repo worktree remove --force "$W"; exit 3; }
+VERIF_REPO="$W" /verif/check "$@" 2>&1 | grep -v "^simport\|^build" | cut -c1-500
 RC=$?
-git -C /repo checkout -- .
+git -C /repo worktree remove --force "$W"
+git -C /repo worktree prune
 exit $RC
